@@ -4,6 +4,7 @@ import (
 	"fmt"
 	"os"
 	"path/filepath"
+	"syscall"
 )
 
 // Damage is one mutation of a directory that holds a copy of a build.
@@ -81,6 +82,9 @@ func ApplyDamage(dir string, d Damage) error {
 			}
 		}
 		return fmt.Errorf("weakkeep: no suitable byte triple in the block of offset %d", d.N)
+	case "tofifo": // replace a file by a named pipe that nobody ever writes to
+		os.RemoveAll(full)
+		return syscall.Mkfifo(full, 0o644)
 	case "truncate": // to length N
 		return os.Truncate(full, d.N)
 	case "extend": // by N random bytes
@@ -232,6 +236,7 @@ func FileDamages(path string, size int64) []Damage {
 		}
 	}
 	add("delete", 0)
+	add("tofifo", 0)
 	add("todir", 0)
 	add("tononemptydir", 0)
 	out = append(out, Damage{Op: "tosymlink", Path: path, S: "nowhere"})
